@@ -323,6 +323,49 @@ def analyse(repo, rep, rule, cls, f, validated_params=()):
     return states, g, first_store_line
 
 
+def validators_raise(repo, rep, r4, prims):
+    """`try: q = helper(q) ... except: raise TypeError(...)` in fill/_update validates the user value only if `helper` raises for a
+    value of the wrong type.  For every module-level helper used this way: the conversion of its parameter (float()/int()) must
+    not sit inside a try whose handler swallows the error (returns/passes instead of raising)."""
+    seen = set()
+    for c in prims:
+        for fname in ("fill", "_update"):
+            f = repo.method(c, fname, required=False)
+            if not isinstance(f, FuncInfo) or f.cls is not c:
+                continue
+            for t in walk_local_stmt(f.node):
+                if not isinstance(t, ast.Try):
+                    continue
+                reraises = any(any(isinstance(x, ast.Raise) for x in ast.walk(h)) for h in t.handlers)
+                if not reraises:
+                    continue
+                for n in ast.walk(ast.Module(body=t.body, type_ignores=[])):
+                    if isinstance(n, ast.Call) and isinstance(n.func, ast.Name):
+                        try:
+                            h = repo.resolve_name(f.module, n.func.id)
+                        except Exception:
+                            h = None
+                        if isinstance(h, FuncInfo) and h.cls is None and h.construct not in seen:
+                            seen.add(h.construct)
+                            rep.analysed_functions.add(h.construct)
+                            swallowed = None
+                            for tr in walk_local_stmt(h.node):
+                                if isinstance(tr, ast.Try):
+                                    conv = [x for x in ast.walk(ast.Module(body=tr.body, type_ignores=[])) if isinstance(x, ast.Call)
+                                            and isinstance(x.func, ast.Name) and x.func.id in ("float", "int") and any(
+                                                isinstance(a, ast.Name) and a.id in h.params for a in x.args)]
+                                    swallowing = [hd for hd in tr.handlers if not any(isinstance(x, ast.Raise) for x in ast.walk(hd))]
+                                    if conv and swallowing:
+                                        swallowed = (conv[0], swallowing[0])
+                            r4.ob(swallowed is None, f"{h.name} (used as a validator by {f.qualname})")
+                            if swallowed is not None:
+                                rep.finding("R12.4", h, swallowed[1], f"{f.qualname} relies on `{h.name}` raising to reject a value of the wrong type (its `except` "
+                                            f"turns the error into the TypeError that rolls the fill back), but {h.name} catches the conversion error "
+                                            f"of `{ast.unparse(swallowed[0])}` itself and returns normally: a wrong-typed value is stored and counted, "
+                                            f"the node and all its ancestors change although the record is invalid",
+                                            stmt=f"{h.name} swallows the conversion error")
+
+
 def run(repo, rep, tier):
     rep.extra["explanation"] = (
         "Typestate analysis (Clean -> Dirty on the first store into the node's own state) over the CFG of all 19 fill() "
@@ -342,6 +385,8 @@ def run(repo, rep, tier):
     r1 = rep.rule("R12.1", "no fallible operation after the first own-state store in fill (typestate on the CFG)", floor=20)
     r2 = rep.rule("R12.2", "single-path containers fill at most one child on every path", floor=6)
     r3 = rep.rule("R12.3", "the repository's rollback marker comment does not follow an own-state store", floor=15)
+    r4 = rep.rule("R12.4", "conversion helpers that fill relies on to reject a wrong-typed value let the conversion error escape", floor=1)
+    validators_raise(repo, rep, r4, prims)
     for c in prims:
         f = repo.own_method(c, "fill")
         states, g, first_store = analyse(repo, rep, r1, c, f)
